@@ -109,6 +109,12 @@ func runCase(c *Case) (*verdict, map[string]int) {
 		if c.Env == "kill-timeout" {
 			m.KillTimeout = time.Nanosecond
 		}
+		if c.Env == "slow-subscriber" {
+			// small queue and window: a subscriber that stops acknowledging makes
+			// publishers wait in the backend (documented) until it goes away
+			m.SessionQueueSize = 4
+			m.ClientInflightMessages = 2
+		}
 	})
 	shut := false
 	defer func() {
@@ -227,6 +233,45 @@ func runCase(c *Case) (*verdict, map[string]int) {
 		breakAt, determinate, cid, connected := model(frames, c.ReadLimit)
 		results[i].breakAt = breakAt
 		p, bconn := b.Dial(fmt.Sprintf("h%d", i))
+		if c.Env == "slow-subscriber" && i == 0 {
+			// connection 0 subscribes to the witness stream with a persistent
+			// session and never acknowledges; once a publisher is stuck in the
+			// backend because of it, it goes away - the broker must recover
+			p.AutoAck = false
+			for _, f := range frames {
+				if !p.C.SendRaw(f) {
+					break
+				}
+			}
+			deadline := time.Now().Add(2 * time.Second * ev.Slow())
+			stuck := 0
+			for stuck < 3 && time.Now().Before(deadline) {
+				time.Sleep(time.Millisecond)
+				open := 0
+				for _, call := range b.Rec.Calls() {
+					if call.Hook == "Publish" {
+						if call.Done {
+							open--
+						} else {
+							open++
+						}
+					}
+				}
+				if open > 0 {
+					stuck++
+				} else {
+					stuck = 0
+				}
+			}
+			if stuck >= 3 {
+				results[i].rejects = 1 // a publisher was observed waiting
+			}
+			p.Drop()
+			if !b.WaitClosed(bconn) {
+				results[i].v = failf(b, "liveness/client-not-terminated", "the non-acknowledging subscriber closed its connection but the broker side never terminated\n--- library goroutines ---\n%s", strings.Join(bk.LibGoroutines(), "\n\n"))
+			}
+			return
+		}
 		for _, f := range frames {
 			if !p.C.SendRaw(f) {
 				break
@@ -275,6 +320,9 @@ func runCase(c *Case) (*verdict, map[string]int) {
 	for i := range results {
 		if results[i].v != nil {
 			return results[i].v, stats
+		}
+		if results[i].rejects > 0 {
+			stats["publisher-waited-for-slow-subscriber"]++
 		}
 		if results[i].breakAt >= 0 {
 			stats["conns-with-protocol-break"]++
@@ -518,10 +566,18 @@ func genCase(rt *rapid.T) *Case {
 		c.Env = fmt.Sprintf("hook:%s:%d", rapid.SampledFrom([]string{"Authenticate", "Setup", "Restore", "Subscribe", "Unsubscribe", "Publish", "Dequeue", "Terminate"}).Draw(rt, "hook"), rapid.IntRange(1, 3).Draw(rt, "nth"))
 	case 5:
 		ids = []string{"h1", "h1", "h2", ""} // storms sharing client ids
+	case 6:
+		c.Env = "slow-subscriber"
+		c.ReadLimit = 0
 	}
 	n := rapid.IntRange(1, 5).Draw(rt, "conns")
 	for i := 0; i < n; i++ {
 		c.Conns = append(c.Conns, genConn(rt, ids))
+	}
+	if c.Env == "slow-subscriber" {
+		cp := refcodec.Encode(&refcodec.Packet{Type: refcodec.CONNECT, ProtoName: "MQTT", Level: 4, ClientID: "slow", Clean: rapid.Bool().Draw(rt, "slow_clean")})
+		sp := refcodec.Encode(&refcodec.Packet{Type: refcodec.SUBSCRIBE, ID: 1, Filters: []string{rapid.SampledFrom([]string{"w/priv", "#", "w/+"}).Draw(rt, "slow_filter")}, QoSs: []byte{byte(rapid.IntRange(1, 2).Draw(rt, "slow_qos"))}})
+		c.Conns[0] = HConn{Frames: []string{hex.EncodeToString(cp), hex.EncodeToString(sp)}, Desc: []string{describe(cp), describe(sp) + " then never acknowledges, leaves once a publisher waits"}}
 	}
 	c.Concurrent = rapid.Bool().Draw(rt, "concurrent")
 	return c
@@ -544,7 +600,7 @@ func nontrivial(c *Case) bool {
 
 func TestC14(t *testing.T) {
 	run := ev.Start("C14", "exploration")
-	run.Rule("hostile scenarios: 1-5 hostile connections (sequential or concurrent, optionally sharing client ids) each sending up to 15 frames: packets a client may send with hostile field values (wildcard / NUL-bearing / empty / 65535-byte topics and filters, arbitrary ids), packets that are out of protocol for a client, mutated and truncated encodings, garbage and oversized length declarations, optionally with a small engine read limit; environments: none, KillTimeout=1ns (takeover fails in Setup), MemoryBackend.Close racing with the connections, the n-th call of one backend hook failing. Meanwhile a witness publisher streams numbered QoS 1 messages to a witness subscribed to '#' and one subscribed to a private topic. Oracle: the process survives; a connection that sent a protocol-breaking frame is closed; a connection that sent only admissible packets still answers PINGREQ; both witnesses receive every numbered message exactly once in order and stay connected; Terminate is called exactly once per successful Setup; Closed() fires for every connection; no library goroutine remains. non-trivial = some frame must be rejected, a boundary-sized field, or a hostile environment; distinct by case")
+	run.Rule("hostile scenarios: 1-5 hostile connections (sequential or concurrent, optionally sharing client ids) each sending up to 15 frames: packets a client may send with hostile field values (wildcard / NUL-bearing / empty / 65535-byte topics and filters, arbitrary ids), packets that are out of protocol for a client, mutated and truncated encodings, garbage and oversized length declarations, optionally with a small engine read limit; environments: none, KillTimeout=1ns (takeover fails in Setup), a subscriber (queue 4, window 2) that never acknowledges the witness stream and leaves once a publisher is stuck behind it, MemoryBackend.Close racing with the connections, the n-th call of one backend hook failing. Meanwhile a witness publisher streams numbered QoS 1 messages to a witness subscribed to '#' and one subscribed to a private topic. Oracle: the process survives; a connection that sent a protocol-breaking frame is closed; a connection that sent only admissible packets still answers PINGREQ; both witnesses receive every numbered message exactly once in order and stay connected; Terminate is called exactly once per successful Setup; Closed() fires for every connection; no library goroutine remains. non-trivial = some frame must be rejected, a boundary-sized field, or a hostile environment; distinct by case")
 	run.Assume("hostile peers' inbound data is drained (a subscriber that stops reading stalls the memory backend by documented design)", "at most 9 unreleased QoS 2 publishes and 60 publishes per hostile connection (flow control and the own-queue limit are documented behaviour)")
 	defer run.Finish(t)
 
